@@ -297,9 +297,6 @@ class StudyConfig(base_study_config.ProblemStatement):
     # Traverse the conditional tree using a BFS.
     while parameter_configs and remaining_parameters:
       parent_name, pc = parameter_configs.pop(0)
-      parameter_configs.extend(
-          (pc.name, child) for child in pc.child_parameter_configs
-      )
       if pc.name not in remaining_parameters:
         continue
       if parent_name is not None:
@@ -317,6 +314,11 @@ class StudyConfig(base_study_config.ProblemStatement):
         external_value = remaining_parameters[pc.name].cast(pc.external_type)  # pytype: disable=wrong-arg-types
       external_values[pc.name] = external_value
       remaining_parameters.pop(pc.name)
+      # Only the children of a config that matched are candidates: the same name
+      # may be defined under several parent values, with different children.
+      parameter_configs.extend(
+          (pc.name, child) for child in pc.child_parameter_configs
+      )
     return external_values
 
   def trial_parameters(
